@@ -75,6 +75,8 @@ def str_type(f, e, depth=0):
 
 def run(ctx):
     """entry"""
+    ok = None
+    t = None
     index = ctx.index
     env = ModuleEnv(index)
     ctx.explanation = (
@@ -91,125 +93,140 @@ def run(ctx):
     p2j = index.func("cdd.json_schema.utils.emit_utils.param2json_schema_property")
     js = index.func("cdd.json_schema.emit.json_schema")
     j2p = index.func("cdd.json_schema.utils.parse_utils.json_schema_property_to_param")
-    # ----------------------------------------------------------- tables
-    try:
-        t2j = env.value("cdd.json_schema.utils.emit_utils.typ2json_type")
-        j2t = env.value("cdd.json_schema.utils.parse_utils.json_type2typ")
-    except Unknown as x:
-        ctx.need(False, "cannot fold the JSON type tables: {}".format(x))
-    ctx.count("table_entries_folded", len(t2j) + len(j2t))
-    for t in DOMAIN:
-        j = t2j.get(t)
-        ok = j in JSON7 and j2t.get(j) == t
-        ctx.ob(
-            "C06.tables",
-            p2j.mod,
-            "typ2json_type[{!r}] = {!r}; json_type2typ[{!r}] = {!r}".format(t, j, j, j2t.get(j) if j else None),
-            ok,
-            ""
-            if ok
-            else "domain type {!r} maps to {!r}, which is {} and maps back to {!r}".format(
-                t, j, "a JSON-Schema type" if j in JSON7 else "NOT one of the seven JSON-Schema type names", j2t.get(j) if j else None
-            ),
-            line=1,
-        )
-    # --------------------------------------------------------- required
-    classes = {}
-    n_paths = 0
-    for kind, stmts in body_paths(p2j.node.body):
-        n_paths += 1
-        appends = sum(
-            1
-            for s in stmts
-            if isinstance(s, ast.Expr)
-            and not isinstance(s, PathFact)
-            and isinstance(s.value, ast.Call)
-            and norm(s.value.func) == "required.append"
-        )
-        facts = [(norm(s.value), s.truth) for s in stmts if isinstance(s, PathFact)]
-        optional = any("startswith('Optional[')" in t and tr for t, tr in facts)
-        typed_tests = [(t, tr) for t, tr in facts if "'typ'" in t and ("==" in t or " in " in t or "is not" in t)]
-        typed = any(tr for _t, tr in typed_tests)
-        cls = "optional" if optional else ("typed-not-optional" if typed else "untyped")
-        classes.setdefault(cls, set()).add(appends)
-    ctx.count("paths_through_param2json_schema_property", n_paths)
-    ctx.need({"optional", "typed-not-optional"} <= set(classes), "could not classify the paths of param2json_schema_property: {}".format(classes))
-    want = {"optional": {0}, "typed-not-optional": {1}, "untyped": {0}}
-    for cls, counts in sorted(classes.items()):
-        ok = counts == want[cls]
+    def _sec_tables():
+        nonlocal ok, t
+        # ----------------------------------------------------------- tables
+        try:
+            t2j = env.value("cdd.json_schema.utils.emit_utils.typ2json_type")
+            j2t = env.value("cdd.json_schema.utils.parse_utils.json_type2typ")
+        except Unknown as x:
+            ctx.need(False, "cannot fold the JSON type tables: {}".format(x))
+        ctx.count("table_entries_folded", len(t2j) + len(j2t))
+        for t in DOMAIN:
+            j = t2j.get(t)
+            ok = j in JSON7 and j2t.get(j) == t
+            ctx.ob(
+                "C06.tables",
+                p2j.mod,
+                "typ2json_type[{!r}] = {!r}; json_type2typ[{!r}] = {!r}".format(t, j, j, j2t.get(j) if j else None),
+                ok,
+                ""
+                if ok
+                else "domain type {!r} maps to {!r}, which is {} and maps back to {!r}".format(
+                    t, j, "a JSON-Schema type" if j in JSON7 else "NOT one of the seven JSON-Schema type names", j2t.get(j) if j else None
+                ),
+                line=1,
+            )
+
+    ctx.section(_sec_tables)
+
+    def _sec_required():
+        nonlocal ok
+        # --------------------------------------------------------- required
+        classes = {}
+        n_paths = 0
+        for kind, stmts in body_paths(p2j.node.body):
+            n_paths += 1
+            appends = sum(
+                1
+                for s in stmts
+                if isinstance(s, ast.Expr)
+                and not isinstance(s, PathFact)
+                and isinstance(s.value, ast.Call)
+                and norm(s.value.func) == "required.append"
+            )
+            facts = [(norm(s.value), s.truth) for s in stmts if isinstance(s, PathFact)]
+            optional = any("startswith('Optional[')" in t and tr for t, tr in facts)
+            typed_tests = [(t, tr) for t, tr in facts if "'typ'" in t and ("==" in t or " in " in t or "is not" in t)]
+            typed = any(tr for _t, tr in typed_tests)
+            cls = "optional" if optional else ("typed-not-optional" if typed else "untyped")
+            classes.setdefault(cls, set()).add(appends)
+        ctx.count("paths_through_param2json_schema_property", n_paths)
+        ctx.need({"optional", "typed-not-optional"} <= set(classes), "could not classify the paths of param2json_schema_property: {}".format(classes))
+        want = {"optional": {0}, "typed-not-optional": {1}, "untyped": {0}}
+        for cls, counts in sorted(classes.items()):
+            ok = counts == want[cls]
+            ctx.ob(
+                "C06.required",
+                p2j,
+                "paths with a {} type append to `required` {} time(s)".format(cls, sorted(counts)),
+                ok,
+                ""
+                if ok
+                else "required <=> not Optional is violated: on some path with a {} type the property is appended {} "
+                "time(s) (want {})".format(cls, sorted(counts), sorted(want[cls])),
+                line=p2j.node.lineno,
+            )
+        # parse side: the declared JSON type has primacy — no constant type may overwrite it afterwards
+        n_over = 0
+        worst = None
+        for kind, stmts in body_paths(j2p.node.body):
+            mapped_at = None
+            for i, st in enumerate(stmts):
+                if isinstance(st, PathFact) or not isinstance(st, ast.Assign):
+                    continue
+                if norm(st.targets[0]) != "_param['typ']":
+                    continue
+                val = norm(st.value)
+                if "json_type2typ" in val or "_param.pop('type')" in val:
+                    mapped_at = i
+                elif mapped_at is not None and isinstance(st.value, ast.Constant):
+                    n_over += 1
+                    worst = st
         ctx.ob(
             "C06.required",
-            p2j,
-            "paths with a {} type append to `required` {} time(s)".format(cls, sorted(counts)),
+            j2p,
+            "the declared JSON type is never overwritten by a constant type",
+            n_over == 0,
+            ""
+            if n_over == 0
+            else "on {} path(s) `{}` runs AFTER the type declared by the schema was mapped: the declared type (and with it "
+            "required <=> not Optional) is overridden".format(n_over, short(worst, 60)),
+            line=(worst.lineno if worst is not None else j2p.node.lineno),
+        )
+
+    ctx.section(_sec_required)
+
+    def _sec_meta():
+        nonlocal ok
+        # ------------------------------------------------------------- meta
+        rets = [n for n in iter_own(js.node) if isinstance(n, ast.Return) and isinstance(n.value, ast.Dict)]
+        ctx.need(rets, "json_schema() no longer returns a dict literal")
+        lit = rets[-1].value
+        items = {k.value: v for k, v in zip(lit.keys, lit.values) if isinstance(k, ast.Constant)}
+        for key in ("$id", "$schema", "description", "type", "properties", "required"):
+            ctx.need(key in items, "top-level schema literal lost key {}".format(key))
+        ok = isinstance(items["$schema"], ast.Constant) and items["$schema"].value == DRAFT
+        ctx.ob("C06.meta", js, "$schema = " + short(items["$schema"], 60), ok, "" if ok else "$schema must be the draft 2020-12 URI", line=items["$schema"].lineno)
+        ok = isinstance(items["type"], ast.Constant) and items["type"].value == "object"
+        ctx.ob("C06.meta", js, "type = " + short(items["type"], 30), ok, "" if ok else 'top-level "type" must be "object"', line=items["type"].lineno)
+        d = str_type(js, items["description"])
+        ok = d == "str"
+        ctx.ob(
+            "C06.meta",
+            js,
+            "description : " + d,
             ok,
             ""
             if ok
-            else "required <=> not Optional is violated: on some path with a {} type the property is appended {} "
-            "time(s) (want {})".format(cls, sorted(counts), sorted(want[cls])),
-            line=p2j.node.lineno,
+            else 'the value of "description" can be {}: for an interface without prose the schema gets '
+            '"description": null, which the draft 2020-12 meta-schema rejects'.format(d)
+            if "none" in d
+            else 'cannot show that "description" is a string ({})'.format(d),
+            line=items["description"].lineno,
         )
-    # parse side: the declared JSON type has primacy — no constant type may overwrite it afterwards
-    n_over = 0
-    worst = None
-    for kind, stmts in body_paths(j2p.node.body):
-        mapped_at = None
-        for i, st in enumerate(stmts):
-            if isinstance(st, PathFact) or not isinstance(st, ast.Assign):
-                continue
-            if norm(st.targets[0]) != "_param['typ']":
-                continue
-            val = norm(st.value)
-            if "json_type2typ" in val or "_param.pop('type')" in val:
-                mapped_at = i
-            elif mapped_at is not None and isinstance(st.value, ast.Constant):
-                n_over += 1
-                worst = st
-    ctx.ob(
-        "C06.required",
-        j2p,
-        "the declared JSON type is never overwritten by a constant type",
-        n_over == 0,
-        ""
-        if n_over == 0
-        else "on {} path(s) `{}` runs AFTER the type declared by the schema was mapped: the declared type (and with it "
-        "required <=> not Optional) is overridden".format(n_over, short(worst, 60)),
-        line=(worst.lineno if worst is not None else j2p.node.lineno),
-    )
-    # ------------------------------------------------------------- meta
-    rets = [n for n in iter_own(js.node) if isinstance(n, ast.Return) and isinstance(n.value, ast.Dict)]
-    ctx.need(rets, "json_schema() no longer returns a dict literal")
-    lit = rets[-1].value
-    items = {k.value: v for k, v in zip(lit.keys, lit.values) if isinstance(k, ast.Constant)}
-    for key in ("$id", "$schema", "description", "type", "properties", "required"):
-        ctx.need(key in items, "top-level schema literal lost key {}".format(key))
-    ok = isinstance(items["$schema"], ast.Constant) and items["$schema"].value == DRAFT
-    ctx.ob("C06.meta", js, "$schema = " + short(items["$schema"], 60), ok, "" if ok else "$schema must be the draft 2020-12 URI", line=items["$schema"].lineno)
-    ok = isinstance(items["type"], ast.Constant) and items["type"].value == "object"
-    ctx.ob("C06.meta", js, "type = " + short(items["type"], 30), ok, "" if ok else 'top-level "type" must be "object"', line=items["type"].lineno)
-    d = str_type(js, items["description"])
-    ok = d == "str"
-    ctx.ob(
-        "C06.meta",
-        js,
-        "description : " + d,
-        ok,
-        ""
-        if ok
-        else 'the value of "description" can be {}: for an interface without prose the schema gets '
-        '"description": null, which the draft 2020-12 meta-schema rejects'.format(d)
-        if "none" in d
-        else 'cannot show that "description" is a string ({})'.format(d),
-        line=items["description"].lineno,
-    )
-    v = items["required"]
-    defs = local_defs(js).get(v.id, []) if isinstance(v, ast.Name) else [v]
-    ok = bool(defs) and all(isinstance(x, (ast.List, ast.ListComp)) or (isinstance(x, ast.Call) and norm(x.func) in ("list", "sorted")) for x in defs)
-    ctx.ob("C06.meta", js, "required : list", ok, "" if ok else '"required" must be a list (is {})'.format([short(x, 30) for x in defs]), line=v.lineno)
-    v = items["properties"]
-    defs = local_defs(js).get(v.id, []) if isinstance(v, ast.Name) else [v]
-    ok = bool(defs) and all(isinstance(x, (ast.Dict, ast.DictComp)) or (isinstance(x, ast.Call) and norm(x.func) in ("dict", "OrderedDict")) for x in defs)
-    ctx.ob("C06.meta", js, "properties : dict", ok, "" if ok else '"properties" must be an object', line=v.lineno)
-    _pattern(ctx, index, p2j, j2p)
+        v = items["required"]
+        defs = local_defs(js).get(v.id, []) if isinstance(v, ast.Name) else [v]
+        ok = bool(defs) and all(isinstance(x, (ast.List, ast.ListComp)) or (isinstance(x, ast.Call) and norm(x.func) in ("list", "sorted")) for x in defs)
+        ctx.ob("C06.meta", js, "required : list", ok, "" if ok else '"required" must be a list (is {})'.format([short(x, 30) for x in defs]), line=v.lineno)
+        v = items["properties"]
+        defs = local_defs(js).get(v.id, []) if isinstance(v, ast.Name) else [v]
+        ok = bool(defs) and all(isinstance(x, (ast.Dict, ast.DictComp)) or (isinstance(x, ast.Call) and norm(x.func) in ("dict", "OrderedDict")) for x in defs)
+        ctx.ob("C06.meta", js, "properties : dict", ok, "" if ok else '"properties" must be an object', line=v.lineno)
+        ctx.section(_pattern, ctx, index, p2j, j2p)
+
+    ctx.section(_sec_meta)
+
 
 
 def _pattern(ctx, index, p2j=None, j2p=None):
